@@ -139,6 +139,9 @@ type boundsRun struct {
 	external    map[string]int
 	hdr         *headerLemma
 	ldone       *pipeline // non-nil when lemma L-done holds
+	// lite mode (runBoundsLite): only obligations of these kinds, only in functions accepted by fnOK
+	kinds map[string]bool
+	fnOK  func(*ssa.Function) bool
 }
 
 // fieldStores lists every Store to field f in module code.
@@ -343,14 +346,23 @@ func (b *boundsRun) isStableField(f *types.Var) bool {
 }
 
 func (b *boundsRun) ok(kind, key string, pos token.Pos, how string) {
+	if b.kinds != nil && !b.kinds[kind] {
+		return
+	}
 	b.stats[kind+":ok"]++
 	b.c.OK(b.rule, key, pos, how)
 }
 func (b *boundsRun) trivial(kind, key string, pos token.Pos, how string) {
+	if b.kinds != nil && !b.kinds[kind] {
+		return
+	}
 	b.stats[kind+":trivial"]++
 	b.c.Trivial(b.rule, key, pos, how)
 }
 func (b *boundsRun) fail(kind, key string, pos token.Pos, k, msg string) {
+	if b.kinds != nil && !b.kinds[kind] {
+		return
+	}
 	b.stats[kind+":open"]++
 	b.c.Fail(b.rule, key, pos, k, msg)
 }
@@ -773,7 +785,7 @@ func (b *boundsRun) run() {
 	b.installRequires()
 	b.recursionCheck()
 	for _, fn := range b.fns {
-		if fn.Blocks == nil {
+		if fn.Blocks == nil || (b.fnOK != nil && !b.fnOK(fn)) {
 			continue
 		}
 		name := b.fnName(fn)
